@@ -222,6 +222,7 @@ type clientEngine struct {
 	cbStack             map[int][]*cCallback
 	fallbackCalls       []cCall
 	idCounter           int
+	zeroIDUsed          bool
 	armedWriteFail      int
 	armedReadFail       int
 	armedAgentStartFail int
@@ -825,6 +826,10 @@ func (e *clientEngine) corrupt(d *cDatagram) *cDatagram {
 
 func (e *clientEngine) freshID() [stun.TransactionIDSize]byte {
 	e.idCounter++
+	if !e.zeroIDUsed && e.idCounter > 1 && e.r.Pct(3, "zero-id") {
+		e.zeroIDUsed = true
+		return [stun.TransactionIDSize]byte{} // the all-zero id is an id like any other
+	}
 	var id [stun.TransactionIDSize]byte
 	id[0] = 0x5A
 	id[10] = byte(e.idCounter >> 8)
